@@ -391,6 +391,24 @@ def run_check(pid: str, tier: str, verif_seed: int, runs: int | None, workers: i
                                                         "replay file (state leaks across runs in one process)")
                     break
         if confirmed is None:
+            # last rung: everything that ran before it in the same chunk of runs (one worker executes a chunk of consecutive
+            # indices in one go, so state left behind by any of them was present)
+            for kind, index, msg, plan in cands[:2]:
+                if plan.get("run_index") is None or plan.get("population") not in ("seed", "sys"):
+                    continue
+                pk = plan["population"]
+                cs = max(1, csize // 4 or 1) if pk == "sys" else csize
+                first = (index // cs) * cs
+                if index - first <= 3:
+                    continue
+                doc = dict(plan)
+                doc["prelude"] = [_plan_for(prop, pid, verif_seed, tier, pk, j) for j in range(first, index)]
+                tmp = write_replay(pid, doc, sig, "", msg)
+                if fresh_replay(pid, tmp)[0] == 1:
+                    confirmed = (tmp, kind, index, msg, f"NOTE: reproduces only after the {index - first} runs that preceded it in its chunk "
+                                                        f"(recorded as 'prelude' in the replay file): state leaks across runs in one process")
+                    break
+        if confirmed is None:
             kind, index, msg, plan = cands[0]
             not_repro.append((kind, index, sig))
             continue
